@@ -156,6 +156,18 @@ def meta_diff(cur, spec):
 # canonical results
 # --------------------------------------------------------------------------
 
+_DASK_KEY = __import__("re").compile(r"^.+-[0-9a-f]{32}$")
+
+
+def _canon_name(name):
+    """The library's own names ('slope', 'mean', ...) are part of a result.  When a function passes
+    no name, xarray falls back to the Dask array's key ('_process_numpy-<token>'): an opaque graph
+    identifier, not a result (it changes with anything that changes the graph's construction)."""
+    if isinstance(name, str) and _DASK_KEY.match(name):
+        return "<dask-key>"
+    return repr(name)
+
+
 def canon_result(out):
     """Backend-independent, comparable, picklable description of a result."""
     import dask.array as da
@@ -169,7 +181,7 @@ def canon_result(out):
         vals = np.asarray(d.compute() if lazy else d)
         return {"kind": "dataarray", "lazy": lazy, "data": vals, "dims": [str(x) for x in out.dims],
                 "coords": {str(k): np.asarray(out.coords[k].values) for k in out.coords},
-                "attrs": _canon_attr(dict(out.attrs)), "name": repr(out.name)}
+                "attrs": _canon_attr(dict(out.attrs)), "name": _canon_name(out.name)}
     if isinstance(out, pd.DataFrame):
         return {"kind": "table", "columns": [repr(c) for c in out.columns],
                 "values": out.to_numpy(dtype=float, na_value=np.nan)}
